@@ -115,6 +115,11 @@ def run_numeric(chk, exe, rng, broken, scale=1):
         chk.violation('sanitizer-n', 'harness died (rc=%s) at: %s\n%s' % (crc, bad[:200], cerr[-1500:]), [bad])
         return
     nv = 0
+    mout, mrc, merr = vlib.run_lines(vlib.model_exe(), lines)
+    if mrc != 0 or len(mout) != len(lines):
+        broken.append('model driver failed on the n-port script: rc=%s %s' % (mrc, merr[-300:]))
+        mout = None
+    nmis = 0
     for idx, (fn, n, mode, M, z0) in enumerate(cases):
         chk.evaluations += 1
         w = cout[idx].split()
@@ -132,6 +137,10 @@ def run_numeric(chk, exe, rng, broken, scale=1):
         else:
             chk.distinct.add((fn, n, mode, idx))
             chk.count('nport_ok_n%d' % n)
+            if mout is not None and not vlib.same_line(cout[idx], mout[idx], 1e-7):
+                nmis += 1
+                if nmis <= 3:
+                    broken.append('correspondence: n-port model and C differ on %s\n  C: %s\n  M: %s' % (lines[idx][:120], cout[idx][:200], mout[idx][:200]))
     for i2, i_n, fn in pair2:
         chk.evaluations += 1
         a = vlib.hs2c(cout[i2].split()[1:])
